@@ -148,6 +148,22 @@ def c12indr (a : List String) (obs : String) : String × String :=
     (model, verdict)
   | _ => ("BADOP", "skip")
 
+/-- flr: each of the two messages written through one (Reset) compression writer inflates on its own. -/
+def c12flr (a : List String) (obs : String) : String × String :=
+  match a with
+  | [_lv, _hide, m1, m2, _how] =>
+    let o1 := hexOrEmpty (getF obs "out1")
+    let o2 := hexOrEmpty (getF obs "out2")
+    let model := s!"nil,nil,nil,nil out1={getF obs "out1"} out2={getF obs "out2"}"
+    let (p1, e1) := inflate (o1 ++ compressionTail)
+    let (p2, e2) := inflate (o2 ++ compressionTail)
+    let verdict :=
+      if p1 != hexOrEmpty m1 || !(e1 == .boundary || e1 == .final) then "bad:output+tail-does-not-inflate-to-the-message"
+      else if p2 != hexOrEmpty m2 || !(e2 == .boundary || e2 == .final) then "bad:message-after-Reset-does-not-inflate-on-its-own"
+      else "ok"
+    (model, verdict)
+  | _ => ("BADOP", "skip")
+
 def c12cf (a : List String) (obs : String) : String × String :=
   match a with
   | [fin, rsv, op, masked, pay] =>
